@@ -5,7 +5,7 @@
    corrupt line; an unterminated last line is an error unless it is over-long, over-long
    lines are discarded).  It yields the observable part of the symbol table: the number
    of FUNC and PUBLIC records, and the last INFO URL record. *)
-From RM Require Import C09.Grammar C10.Model C16.Model.
+From RM Require Import C09.Grammar C10.Model C16.Model C16.Shared Gen.C16Ops.
 Open Scope Z_scope.
 
 Definition GIANT : Z := 100000.   (* generated lines are < 4 KiB or > 170 KiB *)
@@ -156,3 +156,41 @@ Definition o_pending (s : st table) : bool := match s_l s with LRun _ _ _ => tru
 Definition o_cur (s : st table) : Z := match s_l s with LRun _ cur _ => s_id cur | _ => -1 end.
 Definition take_events (n : Z) (evs : list event) : list event := firstn (Z.to_nat n) evs.
 Definition ev_drop : event := EDrop.
+
+(* ---------------------------------------------------------------- shared cache (several clients) *)
+(* The machine of C16/Shared.v with the operation programs extracted from the source (Gen.C16Ops). *)
+Definition sh_init (pre : Z) (prec : bytes) : mfs :=
+  mkmfs (if pre =? 1 then Some (File prec) else if pre =? 2 then Some Dir else None) (negb (pre =? 0)) (fun _ => None).
+Definition sh_state := mstate table.
+Definition sh_start (f : mfs) (srv : Z -> list server) : sh_state := minit table f srv.
+Definition sh_step (s : sh_state) (i : Z) (a : action) : sh_state :=
+  mstep table parse_drv create_ops commit_ops s (i, a).
+(* run client i's pending file-system operations to the end of the function it is in
+   (create_cache_file / commit_cache_file contain no await: the harness cannot observe them half done) *)
+Fixpoint sh_ticks (n : nat) (s : sh_state) (i : Z) : sh_state :=
+  match n with
+  | O => s
+  | S k => match c_ph (ms_cl s i) with
+           | CCreate _ | CCommit _ _ _ => sh_ticks k (sh_step s i ATick) i
+           | _ => s
+           end
+  end.
+Definition sh_net (s : sh_state) (i : Z) (ev : event) : sh_state := sh_ticks 32 (sh_step s i (ANet ev)) i.
+Definition sh_begin (s : sh_state) (i : Z) : sh_state := sh_step s i AStart.
+Definition sh_cache (s : sh_state) : option node := m_cache (ms_fs s).
+Fixpoint sh_count (n : nat) (s : sh_state) : Z :=
+  match n with
+  | O => 0
+  | S k => (match m_tmp (ms_fs s) (Z.of_nat k) with Some _ => 1 | None => 0 end) + sh_count k s
+  end.
+Definition sh_ntmp (s : sh_state) (nc : Z) : Z := sh_count (Z.to_nat nc) s.
+Definition sh_result (s : sh_state) (i : Z) : Z * (Z * Z) * option bytes :=
+  match c_ph (ms_cl s i) with
+  | CDone (ROk (nf, np) u) => (0, (nf, np), u)
+  | CDone RNotFound => (1, (0, 0), None)
+  | CDone RParse => (2, (0, 0), None)
+  | CDropped => (3, (0, 0), None)
+  | CIdle => (5, (0, 0), None)
+  | _ => (4, (0, 0), None)
+  end.
+Definition sh_fs (s : sh_state) : mfs := ms_fs s.
